@@ -38,6 +38,9 @@ type accCase struct {
 	Outs    []outSpec `json:"outs"`
 	Cached  bool      `json:"cached,omitempty"` // cache kind n1/T
 	Op      accOp     `json:"op"`
+	// r flavour: inputs declared at registration in addition to Ins and dropped again (UpdateInputs(Ins)) before the
+	// operation: the rights they gave must be gone
+	Extra []inSpec `json:"extra,omitempty"`
 }
 
 type accSetup struct {
@@ -160,7 +163,12 @@ func runAccessCase(t *testing.T, c accCase) (coq string, problems []string, deni
 
 		var api accAPI
 
-		pr := &accProbeR{ins: ins, outs: outs}
+		regIns := append([]controller.Input(nil), ins...)
+		for _, in := range c.Extra {
+			regIns = append(regIns, in.input())
+		}
+
+		pr := &accProbeR{ins: regIns, outs: outs}
 		pq := &accProbeQ{}
 
 		if c.Flavour == "r" {
@@ -201,6 +209,19 @@ func runAccessCase(t *testing.T, c accCase) (coq string, problems []string, deni
 
 		if api == nil {
 			t.Fatal("probe did not receive its runtime")
+		}
+
+		if len(c.Extra) > 0 && c.Flavour == "r" {
+			pr.mu.Lock()
+			pr.ins = ins
+			r := pr.rt
+			pr.mu.Unlock()
+
+			if err := r.UpdateInputs(ins); err != nil {
+				t.Fatalf("UpdateInputs: %v", err)
+			}
+
+			synctest.Wait()
 		}
 
 		time.Sleep(time.Millisecond)
@@ -287,6 +308,24 @@ func runAccessCase(t *testing.T, c accCase) (coq string, problems []string, deni
 			cop = fmt.Sprintf("(AUpdate %s)", coqRes(r, t0))
 
 			if opErr = api.Update(ctx, r); opErr == nil {
+				obs = "OaOk"
+			}
+		case "updforged":
+			// an object built from scratch that claims this controller as its owner and carries the victim's current version
+			nr := newRes(o.NS, o.Typ, o.ID, "p6")
+			nr.Metadata().SetCreated(t0)
+			nr.Metadata().SetUpdated(t0)
+
+			if cur, err := st.Get(ctx, ptr); err == nil {
+				nr.Metadata().SetVersion(cur.Metadata().Version())
+				nr.Metadata().SetCreated(cur.Metadata().Created())
+			}
+
+			nr.Metadata().SetOwner("c1") //nolint:errcheck
+
+			cop = fmt.Sprintf("(AUpdate %s)", coqRes(nr, t0))
+
+			if opErr = api.Update(ctx, nr); opErr == nil {
 				obs = "OaOk"
 			}
 		case "modify":
@@ -501,7 +540,7 @@ func genAccessCases(r *rng) []accCase {
 		for _, tg := range targets {
 			base := accOp{NS: tg[0], Typ: tg[1], ID: tg[2]}
 
-			for _, op := range []string{"get", "ctx", "create", "update", "addfin", "remfin"} {
+			for _, op := range []string{"get", "ctx", "create", "update", "updforged", "addfin", "remfin"} {
 				o := base
 				o.Op = op
 				ops = append(ops, o)
@@ -537,6 +576,19 @@ func genAccessCases(r *rng) []accCase {
 		for _, d := range decls {
 			for _, op := range ops {
 				cases = append(cases, accCase{Flavour: flavour, Ins: d.ins, Outs: d.outs, Op: op, Cached: r.chance(1, 3)})
+			}
+		}
+
+		// inputs that were declared and then dropped: reads, contexts and finalizer changes on them must be refused again
+		if flavour == "r" {
+			for _, base := range [][]inSpec{{{NS: "n2", Typ: "U", Kind: 0}}, {{NS: "n1", Typ: "T", ID: sp("a"), Kind: 1}}} {
+				for _, extra := range [][]inSpec{{{NS: "n1", Typ: "T", Kind: 1}}, {{NS: "n1", Typ: "T", ID: sp("b"), Kind: 1}, {NS: "n2", Typ: "O", Kind: 0}}} {
+					for _, op := range ops {
+						if op.Op == "get" || op.Op == "list" || op.Op == "ctx" || op.Op == "addfin" || op.Op == "remfin" {
+							cases = append(cases, accCase{Flavour: flavour, Ins: base, Extra: extra, Outs: outSets[1], Op: op, Cached: r.chance(1, 3)})
+						}
+					}
+				}
 			}
 		}
 	}
